@@ -135,13 +135,18 @@ def run(ctx):
     se = prog.fn('Builder::StartEdge')
     for e in se.calls('DiskInterface::WriteFile'):
         if mentions_field(e.get('args'), 'Builder::lock_file_path_'):
-            facts = se.facts_at(e)
-            ok = fact_holds(facts, lambda a: strip(a).get('k') == 'bin' and is_var('build_start')(strip(a)['l']) and const_value(strip(a)['r']) == -1, True)
-            bs = se.single_def('build_start') or [d.get('init') for d in se.events('decl') if d['n'] == 'build_start'][0]
-            s = strip(bs)
-            okc = isinstance(s, dict) and s.get('k') == 'cond' and mentions_field(s['c'], 'BuildConfig::dry_run') and const_value(s['t']) == 0 and const_value(s['f']) == -1
+            # in the world where dry_run is set (every test of it comes out true) the lock file write is unreachable
+            def dry_world(b, i, s2):
+                return not any(pol is False and mentions_field(atom, 'BuildConfig::dry_run') and
+                               not (isinstance(strip(atom), dict) and strip(atom).get('k') == 'bin' and strip(atom)['op'] in ('&&', '||'))
+                               for k, pol, atom in se.edge_facts(b, i))
+            r = se.find_path(None, lambda x: x is e, from_succ=se.entry, edge_ok=dry_world)
+            ok = r is None
+            okc = any(mentions_field(atom, 'BuildConfig::dry_run') for b in se.blocks for i in range(len(se.blocks[b]['succ']))
+                      for k, pol, atom in se.edge_facts(b, i))
             ctx.check('C19.EF2', ok and okc, se.name, 'lock-file-under-dry', se.where(e),
-                      'the lock file is touched only when build_start == -1, which is the non-dry-run initial value (%s)' % dstr(bs))
+                      'the lock file write is unreachable when dry_run is set (path search with every dry_run test true)',
+                      witness=None if r is None else {'blocks': r[0]})
     # what remains reachable under -n (reported)
     rep = []
     for f, nm in ((se, 'DiskInterface::MakeDirs'), (se, 'DiskInterface::WriteFile'), (fc, 'DiskInterface::RemoveFile')):
